@@ -430,7 +430,7 @@ fn annotation(r: &mut R, pool: &Pool, depth: usize) -> DResult<Annotation> {
 }
 
 fn element_value(r: &mut R, pool: &Pool, depth: usize) -> DResult<ElementValue> {
-	if depth > 200 {
+	if depth > 2000 {
 		return Err("element values nest too deeply".into());
 	}
 	let tag = r.u8()?;
